@@ -289,6 +289,9 @@ def hashablize(obj):
     if isinstance(obj, Mapping):
         # Convert immutabledict etc for json decoding
         obj = dict(obj)
+    if isinstance(obj, (set, frozenset)):
+        # Sets have no defined order: sort them for a reproducible hash
+        return tuple(sorted(hashablize(o) for o in obj))
     try:
         hash(obj)
     except TypeError:
